@@ -106,6 +106,9 @@ pub enum PK {
     ClosePrev,
     /// the same tagged message twice in a row, then another one (two equal instalments)
     TagTwice,
+    /// bank send of exactly the configured native deposit (else 1 ucosm) to actor 0: where actor 0 is the proposer
+    /// this message is byte-identical to the deposit refund that precedes it (seeded C15_r12_1)
+    PayDeposit,
     /// 31 tagged messages: one more than the page limit of the list queries (seeded C05_r11_1)
     Tag31,
 }
@@ -649,6 +652,7 @@ impl Cw3Model {
             PK::Tag1 => vec![tag(0)],
             PK::Tag2 => vec![tag(0), tag(1)],
             PK::Pay => vec![BankMsg::Send { to_address: self.cfg.addr(0), amount: vec![coin(1, DENOM)] }.into()],
+            PK::PayDeposit => vec![BankMsg::Send { to_address: self.cfg.addr(0), amount: vec![coin(self.pay_deposit_amount(), DENOM)] }.into()],
             PK::Reenter => vec![exec(&cw3_fixed_multisig::msg::ExecuteMsg::Execute { proposal_id: pid }), tag(0)],
             PK::ExecPrev => vec![exec(&cw3_fixed_multisig::msg::ExecuteMsg::Execute { proposal_id: prev }), tag(0)],
             PK::ClosePrev => vec![exec(&cw3_fixed_multisig::msg::ExecuteMsg::Close { proposal_id: prev }), tag(0)],
@@ -657,9 +661,16 @@ impl Cw3Model {
         }
     }
 
+    fn pay_deposit_amount(&self) -> u128 {
+        match self.cfg.deposit {
+            Dep::Native { amount, .. } => amount,
+            _ => 1,
+        }
+    }
+
     fn n_tags(kind: PK) -> u32 {
         match kind {
-            PK::Empty | PK::Pay => 0,
+            PK::Empty | PK::Pay | PK::PayDeposit => 0,
             PK::Tag2 => 2,
             PK::TagTwice => 3,
             PK::Tag31 => 31,
@@ -1501,6 +1512,11 @@ impl Model for Cw3Model {
                         if pr.kind == PK::Pay {
                             *r.bal.entry((MS, 0)).or_insert(0) = r.bal.get(&(MS, 0)).copied().unwrap_or(0).wrapping_sub(1);
                             *r.bal.entry((0, 0)).or_insert(0) += 1;
+                        }
+                        if pr.kind == PK::PayDeposit {
+                            let x = self.pay_deposit_amount();
+                            *r.bal.entry((MS, 0)).or_insert(0) = r.bal.get(&(MS, 0)).copied().unwrap_or(0).wrapping_sub(x);
+                            *r.bal.entry((0, 0)).or_insert(0) += x;
                         }
                     }
                 }
